@@ -10,7 +10,7 @@ NOTE = ("Trusted base: Lean 4.33 kernel; axioms propext, Classical.choice, Quot.
         "#print axioms on every run; no sorry/admit/native_decide/bv_decide/own axioms); translator/*.py "
         "(clang typed AST -> Lean, fail-closed); correspondence harness built from /repo's working tree "
         "(ASan+UBSan+_GLIBCXX_ASSERTIONS) and comparer; IEEE binary32 rounding, libm, FFTW, HDF5, boost "
-        "are modelled/assumed, not verified. 20 translator fragments regenerate Gen/*.lean from the working tree on "
+        "are modelled/assumed, not verified. 22 translator fragments regenerate Gen/*.lean from the working tree on "
         "every run; hand-model definitions are proved equal to the regenerated ones in Props/Tie*.lean (one module per "
         "fragment), which the checks that depend on them list among their proof obligations. ")
 
@@ -47,7 +47,9 @@ CHECKS = {
              "occupied bucket integrates to exactly its set share, empty buckets to 0, total = sum of shares; average/"
              "variance are the first/centred second moment of the bunch's own projection over its own charge; projections, "
              "charge and moments of a bunch do not depend on other bunches' data; a copy of a fresh state has equal data, "
-             "projections, populations, integral and moments. Hand model validated bitwise on random op sequences.",
+             "projections, populations, integral and moments. Hand model validated bitwise on random op sequences (incl. the "
+             "constructor's own Gaussian start distribution); its loops (Simpson weights, projections, integral, normalize, "
+             "createFromProjections, constructor tail) are proved equal to the regenerated source (Props/TiePS.lean).",
         note="The sampled-Gaussian clause (mean/width up to discretisation error) is measured, not proved. Domain: equal "
              "cell size on both axes.",
         technique="Lean 4 proof (linear algebra of finite sums over the executable model) + bitwise op-sequence correspondence",
